@@ -2,6 +2,8 @@ package main
 
 import (
 	"bytes"
+	"encoding/hex"
+	"strings"
 	"errors"
 	"fmt"
 	"io"
@@ -187,6 +189,8 @@ func genC13(cfg runCfg, e *emitter, rng *rand.Rand) {
 			if err != nil {
 				e.hfail("pol.write", "%v", err)
 			}
+			_, nd := u.VerifPollardCounts(&pol)
+			e.line("WIREPOL pol %d %s", nd, hex.EncodeToString(data))
 			if int(n) != len(data) || pol.SerializeSize() != len(data) {
 				e.hfail("pol.size", "returned %d, predicted %d, produced %d", n, pol.SerializeSize(), len(data))
 			}
@@ -259,6 +263,24 @@ func genC13(cfg runCfg, e *emitter, rng *rand.Rand) {
 					e.hfail(name+".write", "err %v, returned %d, produced %d", err, wn, len(data))
 				}
 				orig := dumpMap(mm)
+				{
+					var cs, ns []string
+					for k, v := range orig.cached {
+						cs = append(cs, fmt.Sprintf("%s:%d", hx(k), v))
+					}
+					for k, v := range orig.nodes {
+						ns = append(ns, fmt.Sprintf("%d:%s:%s", k, hx(v.Hash), b01(v.Remember)))
+					}
+					sort.Strings(cs)
+					sort.Strings(ns)
+					j := func(l []string) string {
+						if len(l) == 0 {
+							return "-"
+						}
+						return strings.Join(l, ",")
+					}
+					e.line("WIREMAP %s %d %d %s %s %s", name, orig.rows, orig.n, j(cs), j(ns), hex.EncodeToString(data))
+				}
 				for _, mode := range modeNames {
 					cr := modes[mode]()
 					cr.data = data
